@@ -25,7 +25,11 @@ POOL = [
     (f"RQ --- {HGI} {OTH} --:------ 2309 001 00", f"RP --- {OTH} {GWY} --:------ 2309 003 0007D0"),
     (f" I --- {HGI} {CTL} --:------ 0008 002 00C8", None),
     (f"RQ --- {HGI} {CTL} --:------ 0006 001 00", f"RP --- {CTL} {GWY} --:------ 0006 004 00050009"),
+    # sent in another device's name (impersonation): a notice goes out ahead of it
+    (f" I --- 04:111111 --:------ {CTL} 2309 003 0307D0", None),
+    (f"RQ --- 30:111111 {CTL} --:------ 30C9 001 03", f"RP --- {CTL} 30:111111 --:------ 30C9 003 0307D0"),
 ]
+N_PLAIN = 9   # the first nine pool commands are sent in the gateway's own name
 FOREIGN = [
     f" I --- {CTL} --:------ {CTL} 1F09 003 FF073F",
     f"RP --- {CTL} 18:999999 --:------ 2309 003 0007D0",       # same header as a reply, other gateway
@@ -131,7 +135,7 @@ def gen_episode(rnd: random.Random, fine: bool = True) -> Episode:
             e.tx[(c, n)] = {"echo": echo, "reply": reply, "dup": fine and rnd.random() < 0.15, "fail": fine and rnd.random() < 0.07}
     if fine:
         for _ in range(rnd.choice((0, 0, 1, 2, 3))):
-            kind = rnd.choice(("foreign", "foreign", "conn_lost", "conn_lost_made"))
+            kind = rnd.choice(("foreign", "foreign", "conn_lost", "conn_lost_made", "pause", "pause_resume"))
             tt = rnd.choice((rnd.uniform(0, 8), rnd.choice(deadlines) + rnd.choice((0, -1e-9, 1e-9)), rnd.choice([c["t"] for c in e.calls]) + rnd.choice((0.0, 1e-9, 0.02))))
             e.events.append((tt, kind, rnd.randrange(len(FOREIGN))))
     return e
@@ -143,7 +147,7 @@ def gen_coarse(rnd: random.Random) -> Episode:
     e = Episode()
     e.mode = rnd.choice((None, False, True))
     n_calls = rnd.choice((1, 2, 3, 4))
-    pool = rnd.sample(range(len(POOL)), n_calls)
+    pool = rnd.sample(range(N_PLAIN), n_calls)      # (the model has no impersonation notice)
     t = 0.0
     for i in range(n_calls):
         t += rnd.choice((0.0, 0.0031, 0.3007, 2.0013)) + 0.0001 * (i + 1)
@@ -175,6 +179,7 @@ class Result:
         self.conn_lost_at: list = []
         self.pkts: list = []          # (t, 'echo'|'reply', pool idx) at delivery
         self.conn: list = []          # (t, 'lost'|'made')
+        self.paused: list = []        # (t, 'pause'|'resume')
 
 
 def run_episode(ep: Episode) -> Result:
@@ -258,6 +263,15 @@ def run_episode(ep: Episode) -> Result:
                     elif arg == 1 and isinstance(ctx._state, F.WantRply):
                         res.pkts.append((loop.time(), "reply", 0))
                     protocol.pkt_received(Packet.from_port(VClockDt.now(), "050 " + FOREIGN[arg]))
+                elif kind in ("pause", "pause_resume"):
+                    # the transport's buffer goes over its high-water mark: new sends are refused until it drains
+                    res.paused.append((loop.time(), "pause"))
+                    protocol.pause_writing()
+                    if kind == "pause_resume":
+                        def drain():
+                            res.paused.append((loop.time(), "resume"))
+                            protocol.resume_writing()
+                        loop.call_later(0.3, drain)
                 elif kind in ("conn_lost", "conn_lost_made"):
                     res.conn_lost_at.append(loop.time())
                     res.conn.append((loop.time(), "lost"))
@@ -298,6 +312,8 @@ def run_episode(ep: Episode) -> Result:
         res.final_inflight = None if ctx._cmd is None else str(ctx._cmd)
         res.lock_held = ctx._lock.locked()
         if ep.probe:
+            if getattr(protocol, "_pause_writing", False):
+                protocol.resume_writing()      # the buffer has drained by now
             if isinstance(ctx._state, F.Inactive):
                 try:
                     ctx.connection_made(transport)
